@@ -302,6 +302,8 @@ def run(ctx):
     from ..rules_common import check_effect_tables
     check_effect_tables(ctx, "C16")
     check_presence_tests(ctx, "C16.PRESENCE", classes=ARG_SCOPE.get("C16", []))
+    from ..rules_common import check_param_rebinding
+    check_param_rebinding(ctx, "C16.PARAMS", classes=ARG_SCOPE.get("C16", []))
 
 
 def check_weekday_normaliser(ctx, eq, hs, elts):
